@@ -12,7 +12,7 @@ for arg in sys.argv[1:]:
     parts = arg.split(':')
     pid, k = parts[0], parts[1]
     checks = parts[2].split(',') if len(parts) > 2 else [pid]
-    wt = f'/tmp/wt-{pid}'; md = f'{wt}/MUTANTS/{k}'; hx = f'/tmp/hx-{pid}'
+    wt = os.environ.get('TRIAGE_WT', '/tmp/wt-{pid}').replace('{pid}', pid); md = f'{wt}/MUTANTS/{k}'; hx = f'/tmp/hx-{pid}'
     env = f'CARGO_TARGET_DIR={wt}/target CARGO_NET_OFFLINE=true'
     res = {'seed': f'{pid}-{k}'}
     if not os.path.exists(f'{md}/patch.diff'):
